@@ -962,6 +962,54 @@ func (t *vkTask) runKindsAPI() {
 	}
 }
 
+// ---- family "self-alias": the node's own slices as arguments
+//
+// n.DeleteKinds(n.Kinds...) (drop every kind), n.AddKinds(n.DeletedKinds...) (take back every deletion) and the other
+// combinations hand the edit a variadic slice that IS one of the slices the edit rewrites. Arguments are values: the
+// outcome must be the one of the same call with a copy of that slice. Oracle: a twin node built and edited the same
+// way is given the copy; the two nodes must read back the same three sets. Every loaded arrangement x layout x prefix
+// of at most one edit (to populate Added/DeletedKinds) x {AddKinds, DeleteKinds} x {Kinds, AddedKinds, DeletedKinds}.
+func (t *vkTask) runSelfAlias() {
+	which := [3]string{"Kinds", "AddedKinds", "DeletedKinds"}
+	prefixes := append([]*vkOp{nil}, t.ops...)
+	for _, arr := range vkArrangements(false) {
+		for layout := 0; layout < 3; layout++ {
+			for _, pre := range prefixes {
+				for _, add := range []bool{true, false} {
+					for w := 0; w < 3; w++ {
+						t.cases++
+						t.size = 2
+						n, twin := vkBuild(arr, layout), vkBuild(arr, layout)
+						desc := vkStateDesc(arr, layout)
+						if pre != nil {
+							if msg := vkApply(n, pre); msg != "" {
+								continue // reported by family "single"
+							}
+							vkApply(twin, pre)
+							desc += " " + pre.name
+						}
+						own := vkSlices(n)[w]
+						cp := append(Kinds(nil), vkSlices(twin)[w]...)
+						verb := "DeleteKinds"
+						if add {
+							verb = "AddKinds"
+						}
+						if p := vkCallEdit(n, add, own); p != "" {
+							t.fail("self-alias %s; n.%s(n.%s...): panic %s", desc, verb, which[w], p)
+							continue
+						}
+						vkCallEdit(twin, add, cp)
+						got, want := vkRead(n), vkRead(twin)
+						if got.bad != "" || got.k != want.k || got.a != want.a || got.d != want.d {
+							t.fail("self-alias %s; n.%s(n.%s...) gives Kinds=%s Added=%s Deleted=%s%s; the same call with a copy of that slice gives Kinds=%s Added=%s Deleted=%s", desc, verb, which[w], vkFmt(n.Kinds), vkFmt(n.AddedKinds), vkFmt(n.DeletedKinds), got.bad, vkFmt(twin.Kinds), vkFmt(twin.AddedKinds), vkFmt(twin.DeletedKinds))
+						}
+					}
+				}
+			}
+		}
+	}
+}
+
 // ---- family "relationship"
 
 func (t *vkTask) runRelationship() {
@@ -1037,6 +1085,7 @@ func TestVerifBoundedKinds(t *testing.T) {
 	}
 	tasks = append(tasks, &vkTask{family: "kinds-api", ops: fullOps, run: (*vkTask).runKindsAPI})
 	tasks = append(tasks, &vkTask{family: "relationship", run: (*vkTask).runRelationship})
+	tasks = append(tasks, &vkTask{family: "self-alias", ops: fullOps, run: (*vkTask).runSelfAlias})
 
 	order := make([]int, len(tasks))
 	for i := range order {
